@@ -71,7 +71,16 @@ func (vfs *MemFS) searchNode(path string, slMode slMode) (
 		avfs.VerifBeforeLock(&parent.mu, false)
 		parent.mu.RLock()
 		child = parent.children[name]
+		// The other directories are checked when the walk enters them.
+		ok := parent != volNode || parent.checkPermission(avfs.OpenLookup, vfs.User())
 		parent.mu.RUnlock()
+
+		if !ok {
+			child = nil
+			err = vfs.err.PermDenied
+
+			return
+		}
 
 		if child == nil {
 			err = vfs.err.NoSuchDir
